@@ -60,6 +60,7 @@ fn eqv<T: Sx>(tag: &str, got: &[T], want: &[T]) {
     goal(tag, and(got.iter().zip(want).map(|(g, w)| eq(*g, *w)).collect()));
 }
 /// relative_eq(a, b, e, e) of approx, in formula form
+#[allow(dead_code)]
 fn rel_eq_fm<T: Sx>(a: T, b: T, e: T) -> Fm {
     let d = a - b;
     let within = |x: T, bound: T| and(vec![le(x, bound), le(-x, bound)]);
@@ -102,25 +103,40 @@ fn normalize<T: Sx, V: Spat<T>>() {
     goal("…magnitude (in place)", eq(m3, m2));
 }
 /// one predicate per scenario (path counts multiply otherwise): 0 is_approx_zero, 1 is_normalized,
-/// 2 is_magnitude_close_to, 3 try_normalized
+/// 2 is_magnitude_close_to, 3 try_normalized.
+/// The property fixes no tolerance ("refusing only near-zero vectors"), so the goals do not pin vek's thresholds:
+/// the exact case must be accepted, and whatever is accepted must be within `SLACK * EPS` (relative to the larger
+/// magnitude where the comparison is relative) — 64 times what the current code allows, so a retuned threshold is
+/// not an alarm while a wrong operand, a missing square or an inverted test is.
 fn approx_preds<T: Sx, V: Spat<T>>(which: usize) {
     let a = symv::<T>("a", V::N);
     let va = V::of(&a);
-    let e4 = T::epsilon() * k(4);
+    let slack = T::epsilon() * k(256);
     let m2 = dotl(&a, &a);
+    // both arguments are sums of squares here, so 1 + x + y bounds max(1, |x|, |y|) from above without an absolute value
+    let near = |x: T, y: T| { let d = x - y; let big = k::<T>(1) + x + y; and(vec![le(d, slack * big), le(-d, slack * big)]) };
     match which {
-        0 => goal("is_approx_zero <=> |v|^2 <= 4 EPS", iff(lit(va.is_zeroish()), le(m2, e4))),
-        1 => goal("is_normalized formula", iff(lit(va.is_norm()), rel_eq_fm(m2, k(1), e4))),
+        0 => {
+            goal("the zero vector is approximately zero", imp(eq(m2, k(0)), lit(va.is_zeroish())));
+            goal("is_approx_zero only for near-zero vectors", imp(lit(va.is_zeroish()), le(m2, slack)));
+        }
+        1 => {
+            goal("a unit vector is normalized", imp(eq(m2, k(1)), lit(va.is_norm())));
+            goal("is_normalized only near unit length", imp(lit(va.is_norm()), near(m2, k(1))));
+        }
         2 => {
             let x = var::<T>("x");
-            goal("is_magnitude_close_to formula", iff(lit(va.is_close(x)), rel_eq_fm(m2, x * x, e4)))
+            goal("is_magnitude_close_to accepts the exact magnitude", imp(eq(m2, x * x), lit(va.is_close(x))));
+            goal("is_magnitude_close_to only near that magnitude", imp(lit(va.is_close(x)), near(m2, x * x)));
         }
         _ => match va.try_norm() {
-            None => goal("try_normalized None only for near-zero", le(m2, e4)),
+            None => goal("try_normalized refuses only near-zero vectors", le(m2, slack)),
             Some(n) => {
-                goal("try_normalized Some only for non-near-zero", gt(m2, e4));
+                goal("try_normalized never accepts the zero vector", gt(m2, k(0)));
                 let n = n.ent();
                 goal("try_normalized unit", eq(dotl(&n, &n), k(1)));
+                let m = m2.sqrt();
+                eqv("try_normalized parallel", &n.iter().map(|x| *x * m).collect::<Vec<_>>(), &a);
             }
         },
     }
@@ -209,9 +225,14 @@ fn vec4_homog<T: Sx>() {
     let a = symv::<T>("a", 4);
     let va = Vec4::of(&a);
     let e = T::epsilon();
-    goal("is_point formula", iff(lit(va.is_point()), rel_eq_fm(a[3], k(1), e)));
-    goal("is_direction formula", iff(lit(va.is_direction()), rel_eq_fm(a[3], k(0), e)));
-    goal("is_homogeneous = point or direction", iff(lit(va.is_homogeneous()), or(vec![rel_eq_fm(a[3], k(1), e), rel_eq_fm(a[3], k(0), e)])));
+    // no tolerance is fixed by the property: exact w is accepted, and what is accepted is near that w
+    let slack = e * k(256);
+    let near = |x: T, y: T| { let d = x - y; and(vec![le(d, slack), le(-d, slack)]) };
+    goal("w = 1 is a point", imp(eq(a[3], k(1)), lit(va.is_point())));
+    goal("is_point only near w = 1", imp(lit(va.is_point()), near(a[3], k(1))));
+    goal("w = 0 is a direction", imp(eq(a[3], k(0)), lit(va.is_direction())));
+    goal("is_direction only near w = 0", imp(lit(va.is_direction()), near(a[3], k(0))));
+    goal("is_homogeneous = point or direction", iff(lit(va.is_homogeneous()), or(vec![lit(va.is_point()), lit(va.is_direction())])));
 }
 fn vec4_homogenize<T: Sx>() {
     let a = symv::<T>("a", 4);
